@@ -245,6 +245,10 @@ def campaign(pid: str, mod_name: str, tier: str, master_seed: int, n_runs: int, 
         exit_code = 2
     if agg.results == 0:
         exit_code = 2
+    n_ok = agg.status.get("ok", 0)
+    if exit_code == 0 and (n_ok == 0 or agg.status.get("skipped", 0) > 0.6 * agg.results):
+        print(f"[{pid}] INCONCLUSIVE: only {n_ok} of {agg.results} runs could be judged (status {agg.status})", flush=True)
+        exit_code = 2
     # ---- evidence
     cov = dict(
         evaluations=int(agg.results),
